@@ -53,7 +53,11 @@ func (c *ctx) walk(u *universe, o walkOpts) {
 		sysShard := uint32(wi % nSh)
 		gas := distinctGas(uint64(10+7*wi), 3)
 		w := u.stdWorld(nSh, sysShard, gas)
+		u.rich = false
 		u.populate(w)
+		if wi%2 == 1 {
+			u.populateRich(w) // every other world: balances beyond 64 bits, nonces past 256, pre-holding destinations, more address shapes
+		}
 		g := newGen(c, u, w)
 		if o.Tune != nil {
 			o.Tune(g)
@@ -64,19 +68,41 @@ func (c *ctx) walk(u *universe, o walkOpts) {
 			hrec = c.startHistory(w)
 		}
 		cover := coverCalls(u, w)
-		for i := 0; i < o.Ops+len(cover); i++ {
+		var tour []func() *worldOp
+		if u.rich {
+			tour = richTour(u, w)
+		}
+		var pending []*worldOp // deliveries of the messages emitted by tour steps
+		ti := 0
+		total := o.Ops + len(cover)
+		for i := 0; i < total; i++ {
 			var op *worldOp
-			if i < len(cover) {
+			fromTour := false
+			switch {
+			case i < len(cover):
 				op = &worldOp{Kind: opTx, Call: cover[i]}
-			} else {
+			case len(pending) > 0:
+				op, pending = pending[0], pending[1:]
+				total++
+			case ti < len(tour):
+				op = tour[ti]()
+				ti++
+				total++
+				fromTour = true
+			default:
 				op = g.randomOp()
 			}
 			pre := w.snap()
 			sr := w.step(op)
+			if fromTour {
+				for _, m := range sr.NewMsgs {
+					pending = append(pending, &worldOp{Kind: opDeliver, ID: m.ID, Gas: m.GasLimit})
+				}
+			}
 			hist = append(hist, op.String())
 			if hrec != nil {
 				hrec.add(op)
-				if i+1 == 40 || i+1 == o.Ops+len(cover) {
+				if i+1 == 40 || i+1 == total {
 					c.emitHistory(hrec, w, fmt.Sprintf("history of world %d, first %d operations (seed %d)", wi, i+1, c.seed))
 				}
 			}
